@@ -233,4 +233,72 @@ theorem es_no_hidden_state :
     seq "pkgvars:interpreters/ecmascript" = ["IgnoreExit", "Interrupted", "InterruptedMessage"] ∧
     seq "hiddenfields:interpreters/ecmascript" = [] := by decide
 
+/-! ## decision skeletons of functions modelled by hand (C13, C14, C15, C19, C20) -/
+
+/-- C19: the decision skeleton of `Session.Run` — every `if`, `range` and `switch` in source order, function
+    literals included — is the one the model `Expect.lean` was written from: diagnostics cleared and
+    outstanding outputs counted per step, outputs with a recorded match skipped, a match is `0 < len(bss)`,
+    a guard rejects with nil bindings, an inverted match fails, the step ends at `need == 0`. -/
+theorem expect_run_skeleton :
+    seq "skeleton:expect.Session.Run" =
+      ["if dir != \"\"", "if err != nil", "if err != nil", "if err != nil", "if err != nil", "if err != nil",
+       "if err != nil", "if err != nil", "if err == io.EOF", "if err != nil", "if s.ShowStderr",
+       "range s.IOs", "if iop.Timeout == 0", "if 0 < iop.Timeout", "range iop.OutputSet",
+       "range iop.OutputSet", "if !o.Inverted", "if err != nil", "if s.ShowStdout", "if err != nil",
+       "range iop.OutputSet", "if output.Bindingss != nil", "if s.ParsePatterns", "if err != nil",
+       "if err != nil", "if err != nil", "if 0 < len(bss)", "if 1 < len(bss)",
+       "if output.GuardSource != nil", "if err != nil", "if output.Guard != nil", "if err != nil",
+       "if exe.Bs == nil", "if 0 < len(bss)", "if output.Inverted", "if need == 0", "if timer != nil",
+       "if err == nil", "range iop.Inputs", "if 0 < i", "if s.ShowStdin", "if err != nil", "if err != nil",
+       "if err == nil", "switch err", "case happy", "if want <= happies", "if happies < want",
+       "if err != nil", "if err != nil"] := by decide
+
+/-- C15: the decision skeleton of `GetChanged` (net changes; deletion wins; a change identical to the one
+    reported before is suppressed) … -/
+theorem crew_changes_skeleton :
+    seq "skeleton:sio.Crew.GetChanged" =
+      ["range c.changed", "if mid == CaptainMachine", "if change.Deleted", "if !have",
+       "if change.State != nil", "if change.SpecSrc != nil", "range changed", "if ch.Deleted",
+       "if err != nil", "if have", "if current == previous"] := by decide
+
+/-- C15: … of `SetMachine` … -/
+theorem crew_setmachine_skeleton :
+    seq "skeleton:sio.Crew.SetMachine" =
+      ["if !have", "if state != nil", "if src != nil", "if state != nil", "switch mid", "case TimersMachine",
+       "if m.Specter == nil", "if err != nil", "if state == nil", "if have", "if err != nil",
+       "if err != nil", "case CaptainMachine", "if err != nil", "if src != nil", "if err != nil"] := by decide
+
+/-- C14/C15: … and of `ProcessMsg`. -/
+theorem crew_processmsg_skeleton :
+    seq "skeleton:sio.Crew.ProcessMsg" =
+      ["for 0 < len(pending)", "if is", "if err != nil", "range walkeds", "if is", "if has",
+       "if 0 < len(emitted)", "if err != nil"] := by decide
+
+/-- C13/C07: the decision skeleton of `Compile` (boot/toob sources, error node, null nodes, action sources,
+    the three branching types, null branches, guards) … -/
+theorem compile_skeleton :
+    seq "skeleton:core.Spec.Compile" =
+      ["if err != nil", "if spec.BootSource != nil && (force || spec.Boot == nil)", "if err != nil",
+       "if spec.ToobSource != nil && (force || spec.Toob == nil)", "if err != nil",
+       "if spec.ErrorNode == \"\"", "if spec.Nodes == nil", "if !have && !spec.NoAutoErrorNode",
+       "range spec.Nodes", "if n == nil", "if n.ActionSource != nil && (force || n.Action == nil)",
+       "if err != nil", "if is", "if n.Branches == nil", "switch n.Branches.Type", "case \"\"",
+       "case \"message\"", "case \"bindings\"", "range n.Branches.Branches", "if b == nil", "if err != nil",
+       "if err != nil", "if b.GuardSource != nil && (force || b.Guard == nil)", "if err != nil"] := by decide
+
+/-- C13: … and of `ParsePatterns`. -/
+theorem parsepatterns_skeleton :
+    seq "skeleton:core.Spec.ParsePatterns" =
+      ["if spec.PatternParser == nil", "if spec.Nodes == nil", "range spec.Nodes",
+       "if n == nil || n.Branches == nil", "range n.Branches.Branches", "if b == nil", "if err != nil",
+       "if err != nil"] := by decide
+
+/-- C20: the decision skeleton of `Analyze`. -/
+theorem analyze_skeleton :
+    seq "skeleton:tools.Analyze" =
+      ["range s.Nodes", "if n.Action != nil || n.ActionSource != nil", "if n.ActionSource != nil",
+       "if n.Branches == nil || len(n.Branches.Branches) == 0", "if n.Branches != nil",
+       "range n.Branches.Branches", "if b.Target == \"\"", "if core.IsBranchTargetVariable(b.Target)",
+       "if !have", "if b.Guard != nil || b.GuardSource != nil", "if b.GuardSource != nil"] := by decide
+
 end FactsOK
